@@ -675,7 +675,7 @@ pub fn gen(seed: u64, tier: &str) -> Vec<String> {
         lines.extend(listing_case(&mut rng, &id, g, lang));
     }
     // C. random histories; games x languages round-robin so that every pair occurs
-    let cases = if thorough { 4000 } else { 500 };
+    let cases = if thorough { 12000 } else { 1000 };
     for i in 0..cases {
         let g = GAMES[(i + seed as usize) % 5];
         let lang = LANGS[((i / 5) + seed as usize) % 8];
